@@ -43,9 +43,13 @@ def run(tier, seed, only=None):
     if tier == 'thorough':
         os.environ['C17_K3MAX'] = os.environ['C17_KMAX']
         os.environ['C17_FULL'] = '1'
+        os.environ['C17_WARM'] = '1'
+        os.environ['C17_MODES'] = '4'
     else:
         os.environ['C17_K3MAX'] = '0'
         os.environ['C17_FULL'] = '0'
+        os.environ['C17_WARM'] = '0'
+        os.environ['C17_MODES'] = '3'
     from checks import h_c17
     specs = [dict(module='checks.h_c17', fn=f, cond_timeout=T, path_timeout=T / 2, setup='setup') for f in h_c17.HARNESSES]
     if only: specs = [s for s in specs if only in s['fn']]
@@ -60,8 +64,8 @@ def run(tier, seed, only=None):
                             '(error-before, error-before, error-before | dies)'),
         'failure kinds': ['0: sqlite3.OperationalError raised once INSTEAD of the statement', '1: connection dies: this and every later call refused, raw connection '
                           'closed without commit', '2: the statement reaches SQLite and THEN sqlite3.OperationalError is raised once'],
-        'session modes': list(h_c17.MODE_NAMES),
-        'pooled connection present': [False, True],
+        'session modes': list(h_c17.MODE_NAMES[:h_c17.MODES]),
+        'pooled connection present': [False] if tier == 'quick' else [False, True],
         'database': 'file-backed SQLite (rollback-journal mode, the default), 4 tables, 3+2+2 seed rows',
     }
     rep.assumptions = [
@@ -87,7 +91,7 @@ def run(tier, seed, only=None):
     return rep
 
 
-TIE_QUICK = ('m2m', 'commit_mid_raw')
+TIE_QUICK = ('commit_mid_raw',)
 
 
 def start_tie(tier):
